@@ -51,17 +51,19 @@ TRUSTED_BASE = [
     "the independent RFC 1035 section walker and RFC 8945 composition written in harness/props/C14.py (oracle side)",
 ]
 ASSUMPTIONS = [
-    "HMAC is opaque in the theorems; 'no accepted alteration' is proved up to an explicit hypothesis that no second (input, MAC) pair verifies (HMAC unforgeability / collision-freeness), never an axiom",
-    "the reader model is a skeleton: names and RDATA of records other than TSIG are skipped, not decoded (C01-C03 cover them); for altered messages only the verdict accepted-signed / accepted-unsigned / rejected is compared",
-    "the message ID and the ASCII case of the key and algorithm names are not authenticated by RFC 8945 (original ID and canonical names are digested); alterations there are expected to be accepted and are checked to leave the RFC digest input unchanged",
+    "HMAC is an opaque function H in every theorem; 'no accepted alteration' (altered_bit_rejected) is proved from the explicit hypothesis that, under the key's secret, only the genuine (MAC input, MAC) pair verifies (unforgeability); request_mac_binding_rejects from explicit collision-freeness; neither is an axiom",
+    "the reader model is a skeleton: owner names and RDATA of records other than TSIG are skipped, not decoded (C01-C03 cover them); it accepts a superset of what the real reader accepts, so 'rejected or pair changed' transfers; for altered messages only 'accepted as validated' vs not is compared with the code",
+    "name decoding inside the message is re-modelled with explicit fuel (Model.Tsig.nameAt) so the kernel can evaluate the reader; its agreement with dns.name.from_wire_parser is by correspondence only",
+    "the message ID and the ASCII case of the TSIG owner / algorithm names are not authenticated by RFC 8945 (original ID and canonical names are digested); bitflip_changes_input leaves the owner-name and algorithm-name octets as possible hiding places, and that only case changes survive there is established by the tie (every bit of ~100 messages per run), not by a theorem",
     "an alteration that turns the TSIG RR into a non-TSIG record yields an unsigned message (had_tsig False); rejecting unsigned answers to signed queries is the caller's rule (dns.query / C18), not part of validation",
-    "GSS-TSIG and callable keyrings are outside the model",
-    "RFC 8945 5.3.1 reading: the prior MAC of a multi-message exchange is digested like a request MAC (with its 2-octet length), as BIND does",
+    "theorems about the reader are stated for a Key keyring; dict keyrings (bytes or Key values), keyring None/False are covered by correspondence; GSS-TSIG and callable keyrings are outside the model",
+    "reader-level acceptance of what Message.to_wire signed (owner-name and RDATA codec round trip through the section walk) is by correspondence + oracle; the theorem sign_then_validate is at the level of dns.tsig.sign / validate on the rendered octets",
+    "in later envelopes of a multi-message exchange only the timers are digested (RFC 8945 5.3.1), so error/other data of those TSIG RRs are outside every claim; RFC 8945 5.3.1 reading: the prior MAC is digested like a request MAC (with its 2-octet length), as BIND does",
 ]
 LEVEL = {
-    "text": "Lean 4 theorems over an executable model of dns/tsig.py, the TSIG RDATA codec, the signing tail of Message.to_wire and the TSIG part of the wire reader: the octets fed to the MAC equal an independently written RFC 8945 composition for requests, responses, first and later envelopes with any unsigned intermediates; sign-then-validate accepts for every algorithm of the regenerated table; the rejection decision list; every accepted message carries a MAC of its own RFC digest input and two accepted messages with the same (input, MAC) pair agree on all authenticated octets, so a single-bit alteration is rejected or changes the pair; request-MAC binding. The model is tied to the code by a differential check of the exact octets passed to update(), of every outcome, and of the verdict on every single-bit alteration; an independent RFC reference recomputes every MAC with Python's hmac.",
-    "note": "Trusted: Lean kernel + propext/Classical.choice/Quot.sound; statements in lean/Props/C14.lean; harness generators; Python hmac. HMAC strength is an explicit hypothesis. Skeleton reader (other records skipped). Recorded finding: TSIG RR TTL neither digested nor checked.",
-    "technique": "Lean 4 proof (byte-composition equality, decision logic, injectivity of the composition) + model-vs-implementation correspondence with recorded MAC input",
+    "text": "Lean 4 theorems over an executable model of dns/tsig.py, the TSIG RDATA codec, the signing tail of Message.to_wire / Renderer._write_tsig and the TSIG part of dns.message._WireReader, HMAC being an arbitrary function: (1) the regenerated algorithm table is exactly RFC 8945 section 6 (names, hashes, truncations, mac_sizes); (2) the octets fed to the MAC equal an independently written RFC 8945 4.3 / 5.3.1 composition for requests, responses bound to a request MAC, and every signed envelope of an exchange with any subset of unsigned intermediates; (3) for every algorithm of the table, what sign produces and Message.to_wire renders is accepted by validate with the same key anywhere in the fudge window; (4) the complete rejection decision list (ARCOUNT 0, TSIG error mapping, time window, key name, algorithm, MAC), misplaced TSIG = BadTSIG; (5) request-MAC binding; (6) acceptance by the reader is sound (the accepted MAC is the HMAC of the RFC components of the received message) and the MAC input determines every octet of the message from 2 up to the TSIG RR and every authenticated TSIG field (the digested string is self-delimiting), hence every single-bit alteration is rejected or changes the (input, MAC) pair unless it lies in the ID, the TSIG owner name, the algorithm name or - as shipped - the TTL of the TSIG RR; with the TTL required to be 0 the TTL exception disappears. Tied to the code by a differential check of the exact octets passed to update(), of every outcome and of the verdict on every single-bit alteration of ~100 signed messages per run; an independent RFC 1035/8945 reference recomputes every MAC with Python's hmac and judges every alteration.",
+    "note": "Trusted: Lean kernel + propext/Classical.choice/Quot.sound; the statements in lean/Props/C14.lean; the harness generators and the independent reference in harness/props/C14.py; Python hmac/hashlib. HMAC strength appears only as explicit hypotheses. Skeleton reader (other records skipped). Recorded finding: the TTL field of the TSIG RR is neither digested nor required to be 0 (model variant asShipped/intended probed at run time; counter-example ttl_bit_accepted_asShipped proved by kernel evaluation).",
+    "technique": "Lean 4 proof (byte-composition equality, decision logic, injectivity of a self-delimiting encoding, positional analysis of single-bit flips) + model-vs-implementation correspondence with recorded MAC input + independent-reference oracle",
     "design_ref": "DESIGN.md §7 C14",
 }
 
@@ -1211,7 +1213,7 @@ def generate(ctx: Ctx, scale, rng, flips=True):
         go(gen_msg(rng, "all" if flips else None, alg))
     for _ in range(n(40)):
         go(gen_mac(rng))
-    for _ in range(n(90)):
+    for _ in range(n(60)):
         go(gen_msg(rng, "all" if flips else None))
     for _ in range(n(150)):
         go(gen_msg(rng, None))
@@ -1222,7 +1224,7 @@ def generate(ctx: Ctx, scale, rng, flips=True):
         go(gen_reject(rng))
     for _ in range(n(60)):
         go(gen_seq(rng, 0))
-    for _ in range(n(12)):
+    for _ in range(n(8)):
         go(gen_seq(rng, "all" if flips else 0), sample=False)
     for _ in range(n(600)):
         go(gen_fn(rng))
@@ -1272,10 +1274,15 @@ def search(ctx: Ctx):
 
 
 def replay(ctx: Ctx, obj: dict):
+    """re-evaluate the recorded case; a replay file stands for one failure signature, so only failures of that
+    signature count (a full alteration scan on the unchanged tree also meets the recorded TTL finding)"""
     install()
     try:
         probe_variant(ctx)
         eval_case(ctx, obj["case"])
     finally:
         uninstall()
-    return [f.what for f in ctx.failures]
+    sig = obj.get("signature")
+    known = {f["signature"] for f in core.load_known().get("findings", []) if f.get("property") == "C14"}
+    out = [f for f in ctx.failures if (f.signature == sig if sig else f.signature not in known)]
+    return [f.what for f in out]
